@@ -1,4 +1,5 @@
 import JsonPathVerif.Theorem
+import JsonPathVerif.ParserShape
 /-! # C05 – filter logic, existence tests and @/$ scoping (evaluator side) -/
 namespace JP.C05
 open JP
@@ -33,5 +34,16 @@ theorem exists_spec (E : Engine) (root : Json) (n : Spec.Node) (ss : List Segmen
 theorem root_spec (E : Engine) (root : Json) (n m : Spec.Node) (ss : List Segment) :
     Spec.logical E root n (.atom (.test (.abs ss) false)) = Spec.logical E root m (.atom (.test (.abs ss) false)) := by
   simp [Spec.logical, Spec.atom, Spec.test]
+
+/-- parser side of "`&&` binds tighter than `||`": for every pair tree the builder is handed, the logical expression it builds
+is an `or` of `and`s of atoms (parenthesised sub-expressions are atoms) -/
+theorem C05_precedence_shape (fuel : Nat) (inp : Inp) (p : PairT) (f : Filter) (h : logicalExprB fuel inp p = .ok f) : OrShape f :=
+  logicalExprB_shape fuel inp p f h
+
+/-- and such an expression is evaluated as the disjunction of the conjunctions: `a || b && c` is `a || (b && c)` -/
+theorem or_of_ands_spec (E : Engine) (root : Json) (n : Spec.Node) (a b c : FilterAtom) :
+    Spec.logical E root n (.or [.atom a, .and [.atom b, .atom c]])
+      = (Spec.atom E root n a || (Spec.atom E root n b && Spec.atom E root n c)) := by
+  simp [Spec.logical, Spec.logicalAny, Spec.logicalAll]
 
 end JP.C05
